@@ -78,6 +78,60 @@ type Ctl struct {
 	actors map[int]*actor
 	seen   int // events already handed out by Step
 	busy   int32 // actors inside a call that is known to return by itself (zero-timeout waits)
+	gids   map[int64]int // goroutine id -> actor (actors started with Go)
+
+	// MutexBlocked, when set, says that a goroutine waiting for a sync.Mutex (stack given) is
+	// blocked by the library for good — e.g. on the lock of a Pool whose holder is parked at a
+	// gate inside a user callback — and not just about to get a contended lock.
+	MutexBlocked func(stack string) bool
+}
+
+// goid returns the id of the calling goroutine.
+func goid() int64 {
+	var buf [64]byte
+	n := runtime.Stack(buf[:], false)
+	// "goroutine 123 ["
+	var id int64
+	for _, ch := range buf[len("goroutine "):n] {
+		if ch < '0' || ch > '9' {
+			break
+		}
+		id = id*10 + int64(ch-'0')
+	}
+	return id
+}
+
+// Actor returns the actor running on the calling goroutine (-1 if it was not started by Go).
+func (c *Ctl) Actor() int {
+	g := goid()
+	c.mu.Lock()
+	defer c.mu.Unlock()
+	if a, ok := c.gids[g]; ok {
+		return a
+	}
+	return -1
+}
+
+// CurOp returns the operation index last recorded for the actor with SetOp / Gate.
+func (c *Ctl) CurOp(id int) int {
+	c.mu.Lock()
+	defer c.mu.Unlock()
+	if a := c.actors[id]; a != nil {
+		return a.op
+	}
+	return 0
+}
+
+// AnyParked reports whether some actor is parked at a gate with the given label.
+func (c *Ctl) AnyParked(label string) bool {
+	c.mu.Lock()
+	defer c.mu.Unlock()
+	for _, a := range c.actors {
+		if a.st == StParked && a.label == label {
+			return true
+		}
+	}
+	return false
 }
 
 // Busy marks (d=+1) / unmarks (d=-1) a section that must finish before the system counts
@@ -86,7 +140,7 @@ type Ctl struct {
 func (c *Ctl) Busy(d int32) { atomic.AddInt32(&c.busy, d) }
 
 func New(free bool) *Ctl {
-	return &Ctl{Free: free, actors: map[int]*actor{}}
+	return &Ctl{Free: free, actors: map[int]*actor{}, gids: map[int64]int{}}
 }
 
 // Go starts an actor goroutine running body; the actor is done when body returns.
@@ -95,6 +149,10 @@ func (c *Ctl) Go(id int, body func()) {
 	c.actors[id] = &actor{st: StBlocked}
 	c.mu.Unlock()
 	go func() {
+		g := goid()
+		c.mu.Lock()
+		c.gids[g] = id
+		c.mu.Unlock()
 		defer c.Done(id)
 		body()
 	}()
@@ -203,14 +261,14 @@ func (c *Ctl) snapshot(id int, skipped bool) StepObs {
 // busyStack: the goroutine is neither parked at a gate nor blocked inside the library.
 // Waiting for a sync.Mutex / RWMutex counts as busy: no lock of the controller or of the
 // library is held across a gate, so such a wait is always about to end.
-func busyStack(g string) bool {
+func (c *Ctl) busyStack(g string) bool {
 	nl := strings.IndexByte(g, '\n')
 	head := g
 	if nl >= 0 {
 		head = g[:nl]
 	}
 	if strings.Contains(head, "[sync.Mutex.Lock") || strings.Contains(head, "[sync.RWMutex") {
-		return true
+		return c.MutexBlocked == nil || !c.MutexBlocked(g)
 	}
 	if hx.Blocked(g) {
 		return false
@@ -229,7 +287,7 @@ func (c *Ctl) Settle(timeout time.Duration) bool {
 		gs := hx.Stacks()
 		quiet := atomic.LoadInt32(&c.busy) == 0
 		for _, g := range gs[1:] { // gs[0] is the caller (running)
-			if busyStack(g) {
+			if c.busyStack(g) {
 				quiet = false // (the signal-listener goroutine of core/proc sits in [syscall] forever)
 				break
 			}
